@@ -40,7 +40,16 @@ def _real(x):
 MOVED = [0]
 
 
+_ENUMS = {}
+
+
 def _p(p, gear=True):
+    if MOVED[0] and type(p) is int and 0 <= p <= 0xFFFF:
+        # the same number as a member of an enumeration of the application (or of dali.gear.colour): an int like any other
+        if p not in _ENUMS:
+            import enum
+            _ENUMS[p] = enum.IntEnum("Setting%d" % p, {"member": p}).member
+        return _ENUMS[p]
     if p == WRONGOBJ:
         from dali import address
         return address.DeviceShort(5) if gear else address.GearShort(5)
